@@ -34,11 +34,18 @@ func genRecCase(t *rapid.T) RecCase {
 	// (one reconciler: a table manager has ONE reconcile loop; rounds never overlap each other)
 	c := RecCase{Reconcilers: 1, InfoSpinner: rapid.Bool().Draw(t, "info")}
 	names := []string{"r0", "r1", "r2", "r3", "r4", "r5"}
+	restores := 0
 	for i, n := 0, rapid.IntRange(4, 30).Draw(t, "n"); i < n; i++ {
 		// (restore: a small table stream loaded into the name - an existing table or, more interesting here, a NEW name: the catalogue
 		// then holds a record without a shard of its own but with a recovery shard, which reconciliation has to leave alone while it is
 		// being filled; seeded change C14-L: such records were hidden from the reconciler, which stopped the recovery shard)
-		c.Calls = append(c.Calls, RCall{Kind: rapid.SampledFrom([]string{"create", "create", "create", "delete", "delete", "restore"}).Draw(t, "kind"), Name: rapid.SampledFrom(names).Draw(t, "name")})
+		call := RCall{Kind: rapid.SampledFrom([]string{"create", "create", "create", "delete", "delete", "restore"}).Draw(t, "kind"), Name: rapid.SampledFrom(names).Draw(t, "name")}
+		if call.Kind == "restore" {
+			if restores++; restores > 2 { // a restore takes half a second (its leader wait)
+				call.Kind = "create"
+			}
+		}
+		c.Calls = append(c.Calls, call)
 	}
 	return c
 }
@@ -53,7 +60,7 @@ func runRecCase(c RecCase, o *vt.Obs) *vt.Failure {
 	e := fx.E
 	var stop atomic.Bool
 	var wg sync.WaitGroup
-	var mu sync.Mutex
+	var mu, roundMu sync.Mutex // roundMu: held during every round
 	var recErr error
 	rounds := 0
 	for r := 0; r < c.Reconcilers; r++ {
@@ -61,7 +68,9 @@ func runRecCase(c RecCase, o *vt.Obs) *vt.Failure {
 		go func() {
 			defer wg.Done()
 			for !stop.Load() {
+				roundMu.Lock()
 				err := e.Manager.VerifReconcile()
+				roundMu.Unlock()
 				mu.Lock()
 				rounds++
 				if err != nil && recErr == nil {
@@ -108,15 +117,35 @@ func runRecCase(c RecCase, o *vt.Obs) *vt.Failure {
 			live[call.Name] = tb.ClusterID
 			created++
 		case "restore":
-			rf, _, err := restoreStream(call.Name, 2, i)
-			if err != nil {
-				finish()
-				vt.Inconclusive("C14 restore stream: " + err.Error())
-				return nil
+			doRestore := func() error {
+				rf, _, err := restoreStream(call.Name, 2, i)
+				if err != nil {
+					return fmt.Errorf("harness: restore stream: timeout waiting for scratch space: %w", err)
+				}
+				defer removeFile(rf.Path())
+				defer rf.Close()
+				return e.Restore(call.Name, rf)
 			}
-			rerr := e.Restore(call.Name, rf)
-			_ = rf.Close()
-			removeFile(rf.Path())
+			rerr := doRestore()
+			if vt.TransientErr(rerr) {
+				// The restore ran out of time (its own deadline is a minute).  A saturated machine - or the rounds?  A control decides
+				// without looking at the clock: the same restore with the reconciler held still, then once more with the rounds running.
+				// Only "fails with rounds, works without, fails with rounds again" is blamed on reconciliation (a recovery shard that IS
+				// catalogued must be left alone by it); everything else stays unjudged.
+				roundMu.Lock()
+				cerr := doRestore()
+				roundMu.Unlock()
+				if cerr != nil {
+					finish()
+					vt.Inconclusive(fmt.Sprintf("C14 restore into %q timed out with and without reconciliation rounds: %v / %v", call.Name, rerr, cerr))
+					return nil
+				}
+				if rerr2 := doRestore(); rerr2 != nil {
+					finish()
+					return vt.Failf(prop+"/restore-broken-by-reconciliation", i, "restore into %q (catalogued before: %v) fails while reconciliation rounds run (%v), works with the reconciler held still, and fails again with the rounds running (%v): the rounds do not leave the catalogued recovery shard alone", call.Name, live[call.Name] != 0, rerr, rerr2)
+				}
+				rerr = nil
+			}
 			if rerr != nil {
 				finish()
 				return vt.Failf(prop+"/restore-error", i, "restore into %q (catalogued before: %v) while reconciliation rounds are running: %v", call.Name, live[call.Name] != 0, rerr)
